@@ -162,6 +162,9 @@ func originsInto(v ssa.Value, set map[string]bool, seen map[ssa.Value]bool, dept
 	case *ssa.MakeInterface:
 		originsInto(x.X, set, seen, depth+1)
 	case *ssa.Slice:
+		if x.Low != nil || x.High != nil {
+			set["subslice"] = true
+		}
 		originsInto(x.X, set, seen, depth+1)
 	case *ssa.SliceToArrayPointer:
 		originsInto(x.X, set, seen, depth+1)
@@ -381,4 +384,92 @@ func returnsOf(fn *ssa.Function) []*ssa.Return {
 		}
 	}
 	return out
+}
+
+// ---------------------------------------------------------------------------------------
+// loops
+
+// loopOverLen finds the header of a loop whose condition compares an index with len(x) where
+// x satisfies pred (for-range over a slice, or an explicit i < len(x) loop).  It returns the
+// header block, the block entered for an iteration (body) and the len value.
+func loopOverLen(fn *ssa.Function, pred func(sliceOrigins []string) bool) (header, body *ssa.BasicBlock, lenv ssa.Value) {
+	for _, b := range fn.Blocks {
+		iff := lastIf(b)
+		if iff == nil {
+			continue
+		}
+		cm, truth, ok := cmpOf(iff.Cond)
+		if !ok || cm.op != token.LSS || !truth {
+			continue
+		}
+		call, ok := cm.y.(*ssa.Call)
+		if !ok || callee(call) != "builtin:len" {
+			continue
+		}
+		if !pred(origins(call.Call.Args[0])) {
+			continue
+		}
+		// must be a loop: the header is reachable from its body successor
+		if !reachableFrom(b.Succs[0], nil)[b] {
+			continue
+		}
+		return b, b.Succs[0], call
+	}
+	return nil, nil, nil
+}
+
+// bodyMustPass reports whether every path from the loop body entry back to the loop header
+// passes one of the given edges (cut-set over the loop body).
+func bodyMustPass(header, body *ssa.BasicBlock, edges map[edge]bool) bool {
+	if body == header {
+		return false
+	}
+	removed := map[edge]bool{}
+	for e := range edges {
+		removed[e] = true
+	}
+	return !reachableFrom(body, removed)[header]
+}
+
+// edgesWhere collects, over the blocks of fn, the out-edges selected by f for each If.
+func edgesWhere(fn *ssa.Function, f acceptFn) map[edge]bool { return acceptingEdges(fn, f) }
+
+func hasAll(os []string, want ...string) bool {
+	for _, w := range want {
+		found := false
+		for _, o := range os {
+			if o == w {
+				found = true
+			}
+		}
+		if !found {
+			return false
+		}
+	}
+	return true
+}
+
+func contains(os []string, sub string) bool {
+	for _, o := range os {
+		if strings.Contains(o, sub) {
+			return true
+		}
+	}
+	return false
+}
+
+// stripSlices removes slicing/conversion wrappers to compare buffer identities.
+func stripSlices(v ssa.Value) ssa.Value {
+	for {
+		switch x := v.(type) {
+		case *ssa.Slice:
+			v = x.X
+		case *ssa.ChangeType:
+			v = x.X
+		case *ssa.Convert:
+			v = x.X
+		default:
+			return v
+		}
+	}
 }
